@@ -360,6 +360,9 @@ class Scalar(AbstractValueWithQuantityObject):
         return result
 
     def _DoOperation(self, p1: Any, p2: Any, operation: Any, callback_operation: Any) -> Any:
+        if getattr(p2, "ndim", None) == 0 and hasattr(p2, "dtype"):
+            # A 0-d numpy array is a number (numpy itself hands it over as one when it's on the left).
+            p2 = p2[()]
         p1_is_number = IsNumber(p1)
         if p1_is_number and operation not in ["Divide", "FloorDivide"]:
             return self.__class__.CreateWithQuantity(
